@@ -71,6 +71,7 @@ inductive Item
   | aux (orig : String) (clone : Option String) (via : String)   -- `aux orig [as clone] [via inode]`
   | act (ctx : Ctxt) (a : ActK)
   | go (far : String) (needs : List Need)
+  | under (frame : String)                     -- `under frame`: makes it the primary under of the current frame
   deriving DecidableEq, Repr
 
 /-- an entry of `frame.auxes` before `resolveAuxLinks`: a framer name or the mapping `{tag: …}` of a clone -/
@@ -308,16 +309,21 @@ def buildAux (moots : List (String × Moot)) (orig : String) (clone : Option Str
           if (lookup moots tag).isSome then .error .parse
           else .ok (.tag tag, moots ++ [(tag, { original := orig, clone := tag, inode := via, insular := insular })])
 
-def buildItems : List Item → List (String × Moot) → List AuxLink → Except Err (List (String × Moot) × List AuxLink)
-  | [], moots, links => .ok (moots, links)
-  | .aux o c v :: rest, moots, links =>
+def buildItems : List Item → List (String × Moot) → List AuxLink → List String →
+    Except Err (List (String × Moot) × List AuxLink × List String)
+  | [], moots, links, unders => .ok (moots, links, unders)
+  | .aux o c v :: rest, moots, links, unders =>
     match buildAux moots o c v with
     | .error e => .error e
-    | .ok (l, moots) => buildItems rest moots (links ++ [l])
-  | .act _ (.rear m f) :: rest, moots, links =>
+    | .ok (l, moots) => buildItems rest moots (links ++ [l]) unders
+  | .act _ (.rear m f) :: rest, moots, links, unders =>
     -- buildRear: the original's name is verified, frame `me` (the default) is refused
-    if ¬ validName m ∨ f = "me" then .error .parse else buildItems rest moots links
-  | _ :: rest, moots, links => buildItems rest moots links
+    if ¬ validName m ∨ f = "me" then .error .parse else buildItems rest moots links unders
+  | .under n :: rest, moots, links, unders =>
+    -- buildUnder: the name is verified; an empty `.unders` gets it, otherwise the first (only) name is overwritten
+    if ¬ validName n then .error .parse
+    else buildItems rest moots links (match unders with | [] => [n] | u0 :: tl => if n = u0 then u0 :: tl else n :: (tl.filter (· != n)))
+  | _ :: rest, moots, links, unders => buildItems rest moots links unders
 
 /-- `buildFrame` and the verbs of its body -/
 def buildFrames : List FrameSrc → Fr → Except Err Fr
@@ -326,10 +332,10 @@ def buildFrames : List FrameSrc → Fr → Except Err Fr
     if ¬ validName f.name ∨ f.name ∈ reservedFrameNames then .error .parse
     else if (o.frame? f.name).isSome then .error .parse
     else
-      match buildItems f.items o.moots [] with
+      match buildItems f.items o.moots [] [] with
       | .error e => .error e
-      | .ok (moots, links) =>
-        let fr : Frame := { name := f.name, inode := f.via, over := f.over, next := none, links := links,
+      | .ok (moots, links, unders) =>
+        let fr : Frame := { name := f.name, inode := f.via, over := f.over, next := none, links := links, unders := unders,
                             items := f.items }
         -- the previous frame without an explicit next gets this one as its lexical next
         let frames := match o.frames.reverse with
@@ -501,23 +507,22 @@ def upChain (frames : List Frame) : Nat → String → Except Err (List String)
       | none => .ok [n]
       | some o => (upChain frames fuel o).map (· ++ [n])
 
-def downChain (frames : List Frame) : Nat → String → Except Err (List String)
-  | 0, _ => .error .resolve                                    -- under cycle: ResolveError (fix D6)
-  | fuel + 1, n =>
+/-- the descent of `Frame.traceOutline` through the primary unders; a frame met again is "Outline unders create
+loop" (ResolveError) -/
+def downChain (frames : List Frame) : Nat → String → List String → Except Err (List String)
+  | 0, _, _ => .error .fuel
+  | fuel + 1, n, acc =>
     match frames.find? (fun f => f.name == n) with
     | none => .error .internal
     | some f =>
       match f.unders.head? with
-      | none => .ok []
-      | some d => (downChain frames fuel d).map (d :: ·)
+      | none => .ok acc
+      | some d => if acc.contains d then .error .resolve else downChain frames fuel d (acc ++ [d])
 
 def traceOutline (frames : List Frame) (n : String) : Except Err (List String) :=
   match upChain frames (frames.length + 1) n with
   | .error e => .error e
-  | .ok up =>
-    match downChain frames (frames.length + 1) n with
-    | .error e => .error e
-    | .ok down => .ok (up ++ down)
+  | .ok up => downChain frames (frames.length + 2) n up
 
 /-- the context `Act.resolvePath` reads off the objects: the act's frame and its overs, the framer, and the
 chain of main frames / main framers -/
@@ -593,6 +598,7 @@ def resolveNeeds (s : St) (o : Fr) (fn : String) : List Need → Store → Excep
 /-- `Act.resolve` for one item of frame `fn` of framer `o`; Poke._resolve creates a missing `value` field as None -/
 def resolveItem (s : St) (o : Fr) (fn : String) (next : Option String) (st : Store) : Item → Except Err (Item × Store)
   | .aux a c v => .ok (.aux a c v, st)
+  | .under n => .ok (.under n, st)
   | .act ctx a =>
     match a with
     | .record t => .ok (.act ctx (.record t), st)
@@ -626,6 +632,7 @@ def inList (c : Ctxt) : Item → Bool
   | .aux _ _ _ => false
   | .act c' _ => c' == c
   | .go _ _ => c == .precur
+  | .under _ => false
 
 /-- resolve the items of one act list, in place -/
 def resolveList (s : St) (o : Fr) (fn : String) (next : Option String) (c : Ctxt) :
@@ -664,6 +671,11 @@ def resolveFrame (u : Nat) (s : St) (fn : String) : Except Err St :=
         match climbOver fn (o.frames.length + 1) fn [] o.frames with
         | .error e => .error e
         | .ok frames =>
+          -- resolveUnderLinks: every under names a frame of this framer; no duplicates
+          let unders := match frames.find? (fun g => g.name == fn) with | some g => g.unders | none => []
+          if unders.any (fun n => (frames.find? (fun g => g.name == n)).isNone) || !(unders.eraseDups.length == unders.length)
+          then .error .resolve
+          else
           let o := { o with frames := frames }
           let s := s.mod u (fun _ => o)
           match resolveLists s o fn f.next resolveOrder f.items s.store with
